@@ -610,6 +610,41 @@ class ExecBase:
             h = st.deref(itv)
             if load.find_method(h.cls[0], h.cls[1], "__next__") is not None:
                 return self.loop_with_invariant(node, st, spec, kind="iter", itv=itv)
+        if seq is None and isinstance(itv, VRef) and isinstance(st.deref(itv), HObj) and spec is not None and spec.bounded:
+            h = st.deref(itv)
+            nx = load.find_method(h.cls[0], h.cls[1], "__next__")
+            if nx is not None:
+                # an iterator object of the repo driven through its real __next__; exact when every
+                # path reaches StopIteration within the stated number of steps (else: unsupported)
+                f = VFunc(nx[2], load.get_module(nx[0]), None, f"{nx[1]}.__next__", (nx[0], nx[1]))
+                out, frontier = [], [st]
+                for _step in range(spec.bounded + 1):
+                    nxt = []
+                    for s0 in frontier:
+                        for s1, r in self.call_function(s0, f, [], {}, self_val=itv):
+                            if isinstance(r, Raised):
+                                if r.exc.cls == "StopIteration":
+                                    out.extend(self.exec_block(node.orelse, s1))
+                                else:
+                                    out.append((s1, r))
+                                continue
+                            for s2, o1 in self.assign(node.target, r, s1):
+                                if o1 is not None:
+                                    out.append((s2, o1))
+                                    continue
+                                for s3, o in self.exec_block(node.body, s2):
+                                    if o is None or o is CONT:
+                                        nxt.append(s3)
+                                    elif o is BRK:
+                                        out.append((s3, None))
+                                    else:
+                                        out.append((s3, o))
+                    frontier = nxt
+                    if not frontier:
+                        break
+                if frontier:
+                    raise Unsupported(f"iterator at line {node.lineno} not exhausted within {spec.bounded} steps")
+                return out
         if seq is None and isinstance(itv, (VU, VOpaque)) and spec is not None and spec.invariant is not None:
             # unknown iterable: its items are an uninterpreted sequence
             seq = z3.Function("items_of", U, I, SeqU)(itv.t, z3.IntVal(st.world))
